@@ -15,6 +15,7 @@ from ..core import RuleResult
 from ..core import norm
 from ..flow import BaseState
 from ..flow import Domain
+from ..flow import ANY as ANY_
 from ..flow import Interp
 from ..linear import canon
 from ..linear import lin_eq
@@ -1150,11 +1151,133 @@ def rule_own_namespace(model):
     return prefixns.fill_rule(r, model)
 
 
+class _MS(BaseState):
+    def __init__(self):
+        pass
+
+    def key(self):
+        return ()
+
+    def copy(self):
+        n = _MS()
+        n.trace = self.trace
+        return n
+
+
+class _MappingDomain(Domain):
+    """One function, with the mapping flag known."""
+
+    def __init__(self, flags, value):
+        self.flags, self.value = flags, value
+        self.attr_reads, self.item_reads = [], []
+
+    def branch(self, test, st):
+        if norm(test) in self.flags:
+            return [(self.value, st)]
+        return [(True, st), (False, st)]
+
+    def _scan(self, node):
+        for x in ast.walk(node):
+            if isinstance(x, ast.Call) and isinstance(x.func, ast.Name) and \
+                    x.func.id == 'getattr' and len(x.args) >= 2 and \
+                    isinstance(x.args[0], ast.Name) and \
+                    isinstance(x.args[1], ast.Name):
+                self.attr_reads.append((x.args[0].id, x.args[1].id, x))
+            elif isinstance(x, ast.Subscript) and isinstance(
+                    x.ctx, ast.Load) and isinstance(x.value, ast.Name) and \
+                    isinstance(x.slice, ast.Name):
+                self.item_reads.append((x.value.id, x.slice.id, x))
+
+    def raises(self, node, st):
+        self._scan(node)
+        out = []
+        for x in ast.walk(node):
+            if isinstance(x, ast.Call) and norm(x.func) == 'getattr':
+                out.append('AttributeError')
+            elif isinstance(x, ast.Subscript) and isinstance(x.ctx,
+                                                             ast.Load):
+                out += ['KeyError', 'IndexError']
+            elif isinstance(x, ast.Call):
+                out.append(ANY_)
+        return sorted(set(out))
+
+    def effects(self, stmt, st):
+        self._scan(stmt)
+        return st
+
+    def on_return(self, node, st):
+        if node.value is None:
+            return [], st
+        return self.raises(node.value, st), st
+
+
+def rule_access_kind(model):
+    r = RuleResult('C10.R11', 'how a named field of an element is read is '
+                   'decided by the mapping option alone: with mapping the '
+                   'element is subscripted and never asked for an '
+                   'attribute, without it the attribute is read and the '
+                   'element never subscripted (an element that has both -- '
+                   'a dict key called "items" -- must not answer with the '
+                   'wrong one)')
+    n = 0
+    for mod in ('DT_InSV', 'DT_In'):
+        for fi in model.module(mod).funcs.values():
+            flags = set()
+            for x in own_nodes(fi.node):
+                t = norm(x) if isinstance(x, (ast.Subscript, ast.Attribute,
+                                              ast.Name)) else ''
+                if t.endswith("['mapping']") or t == 'self.mapping':
+                    flags.add(t)
+            for x in own_nodes(fi.node):
+                if isinstance(x, ast.Assign) and len(x.targets) == 1 and \
+                        isinstance(x.targets[0], ast.Name) and \
+                        norm(x.value) in flags:
+                    flags.add(x.targets[0].id)
+            if 'mapping' in fi.params():
+                flags.add('mapping')
+            if not flags:
+                continue
+            res = {}
+            for val in (True, False):
+                dom = _MappingDomain(flags, val)
+                Interp(dom).run(fi.node, _MS())
+                res[val] = dom
+            pairs = {(a, k) for a, k, _ in res[True].attr_reads +
+                     res[False].attr_reads} & {
+                (a, k) for a, k, _ in res[True].item_reads +
+                res[False].item_reads}
+            for a, k in sorted(pairs):
+                n += 1
+                wrong_t = [x for a2, k2, x in res[True].attr_reads
+                           if (a2, k2) == (a, k)]
+                wrong_f = [x for a2, k2, x in res[False].item_reads
+                           if (a2, k2) == (a, k)]
+                r.instance(fi.where, f'{a}[{k}] / getattr({a}, {k})',
+                           'by the option' if not (wrong_t or wrong_f)
+                           else 'MIXED')
+                if wrong_t:
+                    r.finding(fi.where, wrong_t[0], f'with the mapping '
+                              f'option the field {k} of the element is '
+                              'still read as an attribute: a key that is '
+                              'also an attribute or method of the element '
+                              'type (items, values, copy ...) answers with '
+                              'the attribute', node=wrong_t[0], ctx=fi)
+                if wrong_f:
+                    r.finding(fi.where, wrong_f[0], f'without the mapping '
+                              f'option the element is subscripted with {k}',
+                              node=wrong_f[0], ctx=fi)
+    if n < 2:
+        raise AnalysisError(f'C10.R11: only {n} mapping / attribute access '
+                            'twins found')
+    r.floor = 2
+    return r
+
+
 RULES = [_inl(rule_index), _inl(rule_prefix), _inl(rule_providers),
          _inl(rule_empty),
          _inl(rule_twins), _inl(rule_own_namespace),
          rule_pair_predicate, rule_absent_vs_none,
-         _inl(rule_skip_scope), rule_prefix_store]
+         _inl(rule_skip_scope), rule_prefix_store, rule_access_kind]
 EXPLANATION = (
     'Loop-bound agreement (linear forms) for index uses and first/last '
     'markers; store-site query for prefix-aware keys; provider table for '
